@@ -5,6 +5,7 @@ import math
 
 from ..engine import Clause, chunks
 from ..ref import sphere as S
+from ..ref import precession as PREC
 
 from pymeeus.Angle import Angle
 from pymeeus.Epoch import Epoch
@@ -61,6 +62,11 @@ def check_pair(case):
         if not (-90.0 <= d1._deg <= 90.0):
             out.append(("equ_range", "precession_equatorial(%r->%r) of (%r,%r): declination %r"
                         % (c0, c1, lon, lat, d1._deg), None))
+        rr = PREC.equatorial(c0, c1 - c0, lon, lat)
+        s = S.sep_ll(a1._deg, d1._deg, rr[0], rr[1])
+        if not s <= 1e-9:
+            out.append(("equ_reference", "precession_equatorial(%r->%r) of (%r,%r) = (%r,%r), independent IAU 1976 "
+                        "rotation (%r,%r): %.3g deg" % (c0, c1, lon, lat, a1._deg, d1._deg, rr[0], rr[1], s), s))
         if c0 == c1:
             s = S.sep_ll(lon, lat, a1._deg, d1._deg)
             if not s <= 1e-9:
@@ -448,10 +454,81 @@ def run_near(block, ctx):
     ctx.sample(block[0])
 
 
+# -- the quadrant seams of the two rotations, on the input and on the output side -----------------------------
+
+SEAM_PAIRS = [(0.0, 1.0), (0.0, -0.5), (-1.0, 2.0), (0.2884, 0.0), (5.0, -4.0), (0.0, 0.0001)]
+SEAM_DELTAS = [0.0, 1e-8, -1e-8, 1e-7, -1e-7, 1e-6, -1e-6, 3e-6, -3e-6, 2e-5, -2e-5, 1e-4, -1e-3]
+SEAM_LATS = [-60.0, 0.0, 30.0, 80.0]
+
+
+def check_seam(case):
+    """Inputs constructed (with an independent implementation of the IAU 1976 angles, ref/precession.py) so that
+    the intermediate longitude the rotation formulas take an arctangent of - alpha + zeta on the way in,
+    alpha' - z on the way out; Pi - lambda and p + Pi - lambda' for the ecliptical routine - lies 0 .. 1e-3
+    degree from 0, 90, 180 or 270 degrees.  The result is compared with the independent rotation (1e-9) and
+    taken there and back."""
+    from ..ref import precession as PR
+    kind, side, c0, c1, q, d, lat = (case["kind"], case["side"], case["c0"], case["c1"], case["quadrant"],
+                                     case["delta"], case["lat"])
+    T, t = c0, c1 - c0
+    if kind == "equ":
+        zeta, z, theta = PR.equatorial_angles(T, t)
+        if side == "in":
+            lon = q + d - zeta
+        else:
+            lon, lat = PR.equatorial_inverse(T, t, z + q + d, lat)
+        fn, ref = precession_equatorial, PR.equatorial
+        tol_rt = 1e-9
+    else:
+        eta, pi_, p = PR.ecliptical_angles(T, t)
+        if side == "in":
+            lon = pi_ - (q + d)
+        else:
+            lon, lat = PR.ecliptical_inverse(T, t, p + pi_ - (q + d), lat)
+        fn, ref = precession_ecliptical, PR.ecliptical
+        tol_rt = 1e-6
+    lon %= 360.0
+    out = []
+    try:
+        a, b = fn(ep(c0), ep(c1), Angle(lon), Angle(lat))
+        a2, b2 = fn(ep(c1), ep(c0), a, b)
+    except Exception as ex:
+        return [("seam_exception", "precession_%s %r->%r of (%r, %r) raised %r" % (kind, c0, c1, lon, lat, ex), None)]
+    r = ref(T, t, lon, lat)
+    s1 = S.sep_ll(a._deg, b._deg, r[0], r[1])
+    if s1 > 1e-9:
+        out.append(("seam_rotation", "precession_%s %r->%r of (%r, %r) = (%r, %r), independent rotation (%r, %r): %.3g deg"
+                    % (kind, c0, c1, lon, lat, a._deg, b._deg, r[0], r[1], s1), s1))
+    s2 = S.sep_ll(a2._deg, b2._deg, lon, lat)
+    if s2 > tol_rt and abs(t) <= 5.0:
+        out.append(("seam_roundtrip", "precession_%s %r->%r->%r of (%r, %r) comes back %.3g deg away"
+                    % (kind, c0, c1, c0, lon, lat, s2), s2))
+    return out
+
+
+def seam_cases():
+    return [{"kind": k, "side": sd, "c0": c0, "c1": c1, "quadrant": q, "delta": d, "lat": la}
+            for k in ("equ", "ecl") for sd in ("in", "out") for (c0, c1) in SEAM_PAIRS
+            for q in (0.0, 90.0, 180.0, 270.0) for d in SEAM_DELTAS for la in SEAM_LATS]
+
+
+def run_seams(block, ctx):
+    for case in block:
+        ctx.evals += 2
+        ctx.nt_count += 1
+        for site, msg, dev in check_seam(case):
+            ctx.viol(case, msg, dev=dev, site=site)
+            ctx.maxi(site, dev)
+        ctx.outcome((case["kind"], case["side"], case["quadrant"]))
+    ctx.sample(block[0])
+
+
 def clauses(tier):
     return [
         Clause("epoch_pairs", chunks(pair_cases(tier), 64), run_pairs,
                lambda c: [m for _, m, _ in check_pair(c)], floor=5000),
+        Clause("quadrant_seams", chunks(seam_cases(), 32), run_seams, lambda c: [m for _, m, _ in check_seam(c)],
+               floor=2000),
         Clause("near_epoch_history", chunks(near_cases(), 15), run_near,
                lambda c: [m for _, m, _ in check_near_history(c)], floor=10, shape="H"),
         Clause("epoch_triples", chunks(triple_cases(), 16), run_triples,
